@@ -1,12 +1,82 @@
-(** Property C04 — placeholder while the proofs are being written: model sanity only. *)
+(** Property C04 — RCU never reclaims an object a pre-existing reader may still see.
+    Only statements here; proofs live in LV.Proofs.RcuGp*.
+
+    Vocabulary (LV.Proofs.RcuGpInv): the trace of a run is the list of (thread, event) pairs in execution order;
+    [at_ tr i t P] = thread t emitted at position i an event satisfying P;  "rlock 1 _" is emitted by a reader right
+    after the access_lock() that opened its outermost read-side section returned, "runlock 0" right before the
+    access_unlock() that closes it is called (nested sections emit rlock d / runlock d with d >= 1 and do not
+    count); "sync_begin"/"sync_end" bracket a call of synchronize(); "retire p" is emitted before
+    retire_ptr(p) is called and "dispose p" by the disposer.
+    [open_at tr r s i] = reader r opened an outermost section at position s < i and has not left it before i.
+
+    Scope of these theorems: the model LV.Model.RcuGp of cds/urcu/details/{base,gp_decl,gp,gpi}.h with
+    Lock = cds::sync::spin_lock (flavour general_instant), tied to the code by checks/C04.py.  They hold for
+    EVERY schedule ([Conc.reach] = every sequence of thread choices), any number of threads, any client programs
+    (lists of attach / detach / rlock / runlock / synchronize / retire / publish / unpublish / touch in any order;
+    operations the client contract forbids - synchronize, retire or detach inside a section, nesting depth 2^31 -
+    are not executed), any spin fuel.  The buffered flavours are in Properties_C05.v (general_buffered: theorem
+    gpb_no_dispose_inside_old_reader).  general_threaded and signal_buffered have no Coq theorem: they are covered
+    by exploration of the real code with the same monitors (checks/C05.py), labelled as such in the evidence.
+
+    The sentence of C04 about raw_ptr / exempt_ptr ("pointers handed out by RCU containers stay valid until
+    released outside the lock") is NOT a statement about the RCU core: such a pointer stays valid because the
+    container retires the extracted node only when the holder releases it (raw_ptr::release / exempt_ptr
+    destructor, outside the read-side lock), after which [C04_gpi_no_dispose_inside_old_reader] applies to that
+    retire call.  The retire discipline belongs to the container models (C13/C15 RCU variants) and their
+    harnesses; nothing here claims it. *)
 From Coq Require Import ZArith List String.
-From LV Require Import Base.Conc Base.Events Model.RcuGp.
+From LV Require Import Base.Conc Base.Events Model.RcuGp Proofs.RcuGpInv Proofs.RcuGpSafe Proofs.RcuGpRefute.
 Import ListNotations.
 Local Open Scope string_scope.
-Local Open Scope Z_scope.
 
-Example C04_model_runs :
-  let r := RcuGp.run_case [2; 3000] [[[1]; [3]; [9]]; [[1]; [5]; [8]; [5]]]
-             [0;0;0;0;0;0;0;1;1;1;1;1;1;1;1;1;1;1;1;1;1;0]%nat 2000 in
-  snd r = true /\ List.length (filter (is_cli "sync_end") (map snd (fst r))) = 2%nat.
-Proof. vm_compute. split; reflexivity. Qed.
+(** gp_synchronize_waits: for every synchronize interval [i, j] of a thread w (its sync_begin at i, the next
+    sync_end at j) and every reader r whose outermost section began at s < i and was still open at i, the reader
+    leaves that section at some position b with i < b < j: synchronize() returns only after all such readers
+    have left.  (The two-flip argument: invariant over the writer's position in the record list and the phase
+    bit each reader snapshot carries, LV.Proofs.RcuGpInv.wclause.) *)
+Theorem C04_gp_synchronize_waits :
+  forall (fuel : nat) (ths : list (list RcuGp.op)) c,
+    Conc.reach (RcuGp.init_cfg 2 fuel ths) c ->
+    forall w i j, at_ (Conc.trace c) i w is_sync_begin -> at_ (Conc.trace c) j w is_sync_end -> i < j ->
+      (forall k, i < k < j -> ~ at_ (Conc.trace c) k w is_sync_begin) ->
+      forall r s, open_at (Conc.trace c) r s i ->
+        exists b, i < b < j /\ at_ (Conc.trace c) b r is_runlock0.
+Proof. exact gp_synchronize_waits_all. Qed.
+Print Assumptions C04_gp_synchronize_waits.
+
+(** gpi_no_dispose_inside_old_reader (general_instant): every "dispose p" at position d is preceded by a
+    "retire p" of the same thread at some k < d such that every reader that was inside a section at k (entered
+    before the retirement) has left it before d. *)
+Theorem C04_gpi_no_dispose_inside_old_reader :
+  forall (fuel : nat) (ths : list (list RcuGp.op)) c,
+    Conc.reach (RcuGp.init_cfg 2 fuel ths) c ->
+    forall w p d, at_ (Conc.trace c) d w (is_dispose p) ->
+      exists k, k < d /\ at_ (Conc.trace c) k w (is_retire p) /\
+        forall r s, open_at (Conc.trace c) r s k -> exists b, k < b < d /\ at_ (Conc.trace c) b r is_runlock0.
+Proof. exact gpi_dispose_safe_all. Qed.
+Print Assumptions C04_gpi_no_dispose_inside_old_reader.
+
+(** gp_single_flip_refuted (non-vacuity regression): the same model with ONE flip_and_wait in synchronize has a
+    reachable trace that violates the statement of C04_gp_synchronize_waits. *)
+Theorem C04_gp_single_flip_refuted :
+  exists (ths : list (list RcuGp.op)) c,
+    Conc.reach (RcuGp.init_cfg 1 3000 ths) c /\ ~ sync_waits (Conc.trace c).
+Proof. exists cx_threads, (cx_cfg 1). exact cx_refuted. Qed.
+Print Assumptions C04_gp_single_flip_refuted.
+
+(** the hypotheses of C04_gp_synchronize_waits are satisfiable: on the same schedule the real (two-flip) model
+    has a synchronize interval [i2, j2] of thread 1 with reader 0 inside since s2 < i2, and the reader's
+    "runlock 0" lies at b2 inside the interval *)
+Example C04_gp_synchronize_waits_nonvacuous :
+  at_ (cx_trace 2) i2 1 is_sync_begin /\ at_ (cx_trace 2) j2 1 is_sync_end /\ i2 < j2 /\
+  (forall k, i2 < k < j2 -> ~ at_ (cx_trace 2) k 1 is_sync_begin) /\
+  open_at (cx_trace 2) 0 s2 i2 /\ i2 < b2 < j2 /\ at_ (cx_trace 2) b2 0 is_runlock0.
+Proof. exact two_flip_instance. Qed.
+
+(** a concrete run in which an object is retired while a reader is inside and disposed after the reader left *)
+Example C04_gpi_dispose_nonvacuous :
+  let r := RcuGp.run_case [2; 3000] [[[1]; [3]; [9]; [9]]; [[1]; [7; 5]; [8]; [6; 5]]]
+             [0;0;0;0;0;0;0;0;1;1;1;1;1;1;1;1;1;1;1;1;1;1;1;1;1;1;1;1;1;1;1;1;1;1;1;0]%nat 3000 in
+  snd r = true /\ List.length (filter (is_cli "dispose") (map snd (fst r))) = 1%nat /\
+  List.length (filter (is_cli "touch") (map snd (fst r))) = 1%nat.
+Proof. Time vm_compute. repeat split; reflexivity. Qed.
